@@ -44,6 +44,7 @@ type lcase struct {
 	BStepMs      int `json:"bStepMs"`      // > 0: the second process's steps and handler sleep this long instead
 	ThirdAfterMs int `json:"thirdAfterMs"` // > 0: a third `start` (agent C) is launched that long after the second
 	Retention    int `json:"retention"`    // >= 0: `histRetentionDays: N` in the DAG (0 = the loader's default, 30 days); -1: not written
+	BVia         string `json:"bVia"`      // the second command's path to the SAME file: "" plain | dirlink | filelink | hardlink
 	BackdateH    int `json:"backdateH"`    // > 0: just before the second command every file under the data dir gets an mtime that many hours in the past
 }
 
@@ -87,6 +88,8 @@ type result struct {
 	AAliveAfter bool           `json:"aAliveAfter"` // A still running when B exited
 	StatusCmd   string         `json:"statusCmd"`   // what `blackdagger status` printed after B exited
 	Sock        string         `json:"sock"`
+	SockB       string         `json:"sockB"`       // socket address under the second command's spelling of the path
+	BSockSeen   bool           `json:"bSockSeen"`   // a socket file existed at that address right after the second command exited / while it ran
 	WallMs      int            `json:"wallMs"`
 }
 
@@ -480,6 +483,29 @@ exit 0
 	sockPath := (&dag.DAG{Location: dagFile}).SockAddr()
 	res.Sock = sockPath
 	defer os.Remove(sockPath)
+	// the same file under another spelling of its path
+	bDagFile := dagFile
+	switch c.BVia {
+	case "dirlink":
+		_ = os.Symlink(filepath.Join(home, "dags"), filepath.Join(home, "dagslink"))
+		bDagFile = filepath.Join(home, "dagslink", "d.yaml")
+	case "filelink":
+		_ = os.MkdirAll(filepath.Join(home, "alt"), 0755)
+		bDagFile = filepath.Join(home, "alt", "d.yaml")
+		_ = os.Symlink(dagFile, bDagFile)
+	case "hardlink":
+		_ = os.MkdirAll(filepath.Join(home, "alt"), 0755)
+		bDagFile = filepath.Join(home, "alt", "d.yaml")
+		if err := os.Link(dagFile, bDagFile); err != nil {
+			res.Err = "hard link: " + err.Error()
+			return
+		}
+	}
+	bSock := (&dag.DAG{Location: bDagFile}).SockAddr()
+	res.SockB = bSock
+	defer os.Remove(bSock)
+	defer os.Remove(strings.TrimSuffix(sockPath, ".sock") + ".lock")
+	defer os.Remove(strings.TrimSuffix(bSock, ".sock") + ".lock")
 	setSleep := func(ms int) {
 		_ = os.WriteFile(filepath.Join(home, "slp"), []byte(fmt.Sprintf("%d.%03d", ms/1000, ms%1000)), 0644)
 	}
@@ -497,11 +523,11 @@ exit 0
 	}()
 
 	// an earlier, failed run R0 for the retry variant (no sleeps; last step fails)
-	bArgs := []string{"start", "-q", dagFile}
+	bArgs := []string{"start", "-q", bDagFile}
 	if c.Kind == "retry" {
 		setSleep(0)
 		_ = os.WriteFile(filepath.Join(home, "fail"), []byte("x"), 0644)
-		p0 := launch(c, home, "R", "", "start", "-q", dagFile)
+		p0 := launch(c, home, "R", "", "start", "-q", bDagFile)
 		procs = append(procs, p0)
 		if !p0.wait(20 * time.Second) {
 			res.Err = "R0 did not finish"
@@ -514,7 +540,7 @@ exit 0
 			return
 		}
 		res.R0 = h[0].Req
-		bArgs = []string{"retry", "--req=" + res.R0, dagFile}
+		bArgs = []string{"retry", "--req=" + res.R0, bDagFile}
 	}
 	setSleep(c.StepMs)
 	_ = os.WriteFile(filepath.Join(home, "slp_hx"), []byte(fmt.Sprintf("%d.%03d", c.HandMs/1000, c.HandMs%1000)), 0644)
@@ -631,6 +657,9 @@ exit 0
 				continue
 			}
 			sf, err := db.FindByRequestID(dagFile, q)
+			if (err != nil || sf == nil) && bDagFile != dagFile {
+				sf, err = db.FindByRequestID(bDagFile, q) // recorded under the other spelling
+			}
 			res.StoreByReq[q] = err == nil && sf != nil
 		}
 	}
@@ -669,8 +698,9 @@ exit 0
 		all = append(all, np{"C", pc})
 	}
 	for _, x := range all {
-		evs, _ := parseTrace(x.p.trace, x.n, sockPath, filepath.Join(home, "data")+"/")
-		evs = append(evs, listenEvents(x.p.trace, x.n, sockPath)...)
+		// (each traced process touches only the socket of its own spelling of the path)
+		evs, _ := parseTrace(x.p.trace, x.n, "/tmp/@blackdagger-d-", filepath.Join(home, "data")+"/")
+		evs = append(evs, listenEvents(x.p.trace, x.n, "/tmp/@blackdagger-d-")...)
 		res.Events = append(res.Events, evs...)
 		res.Pid[x.n] = x.p.pid
 	}
